@@ -190,13 +190,17 @@ type node struct {
 	reportedErr  error
 }
 
-func boot(cfg cacheCfg, kind string) (n *node, err error) {
+func boot(cfg cacheCfg, kind string) (*node, error) { return bootOn(memorydb.New(), cfg, kind) }
+
+// bootOn wires the stack over db: an empty database (the genesis is executed and committed) or the database of a
+// stopped node (a restart: NewBlockChain loads the head, the snapshot journal, ...).
+func bootOn(db *memorydb.Database, cfg cacheCfg, kind string) (n *node, err error) {
 	defer func() {
 		if p := recover(); p != nil {
 			err = fmt.Errorf("boot panicked: %v\n%s", p, debug.Stack())
 		}
 	}()
-	n = &node{cfg: cfg, kind: kind, db: memorydb.New(), txErrs: map[common.Hash]string{}}
+	n = &node{cfg: cfg, kind: kind, db: db, txErrs: map[common.Hash]string{}}
 	n.gen = makeGenesis(kind)
 	n.bc, err = blockchain.NewBlockChain(n.db, cfg.real(), n.gen)
 	if err != nil {
